@@ -36,8 +36,28 @@ class Executor:
         return self.membranes[dirname]
 
     def obj(self, i):
+        """Pool object i, memoised per session.  Across the sessions of one run the pristine
+        object (as returned by the real generator, before any save touched it) is kept as a
+        pickle under <root>/_cache (harness-private, written through the un-intercepted open),
+        so a restarted session does not pay for the model building again."""
         if i not in self.objs:
-            self.objs[i] = self._build(self.pool[i])
+            import pickle
+            from .seams import _REAL
+            cdir = os.path.join(self.root, "_cache")
+            cpath = os.path.join(cdir, "%d.pkl" % i)
+            if os.path.exists(cpath):
+                with _REAL["open"](cpath, "rb") as fh:
+                    self.objs[i] = pickle.load(fh)
+            else:
+                o = self._build(self.pool[i])
+                try:
+                    os.makedirs(cdir, exist_ok=True)
+                    with _REAL["open"](cpath + ".tmp", "wb") as fh:
+                        pickle.dump(o, fh)
+                    _REAL["rename"](cpath + ".tmp", cpath)
+                except Exception:
+                    pass
+                self.objs[i] = o
         return self.objs[i]
 
     def _pv(self, item):
